@@ -14,8 +14,7 @@ func init() { props["C03"].Quick = append(props["C03"].Quick, c03R5) }
 
 // c03R5Reviewed: operators that build a BinaryExpr but have no operand rule in checkBinaryExpr.
 var c03R5Reviewed = map[string]string{
-	"IS_TOKEN":  "right operand is a type, checked by the `is` path of checkExpr",
-	"EXP_TOKEN": "`**` evaluates in f64 (or the large type) whatever the numeric operand types are; non-numeric operands are not rejected by the type checker but by code generation (error, no executable) — residual, see DESIGN.md",
+	"IS_TOKEN": "right operand is a type, checked by the `is` path of checkExpr",
 }
 
 // C03.R5: arithmetic between two typed operands is accepted only when the types are identical.
